@@ -120,11 +120,13 @@ def match_known(known, prop, tier, config, program, key, vc):
     for e in known.get('findings', []):
         if e.get('property') != prop or e.get('status', 'known') != 'known':
             continue
-        if not re.fullmatch(e.get('program', '.*'), program):
-            continue
-        if not re.fullmatch(e.get('key', '.*'), key):
-            continue
-        if 'config' in e and not re.fullmatch(e['config'], config):
+        # a finding is delimited by one (program, key[, config]) pattern or by several ("also": the same defect
+        # seen through differently shaped classes, each pattern as narrow as what was observed)
+        for pat in [e] + list(e.get('also', [])):
+            if (re.fullmatch(pat.get('program', '.*'), program) and re.fullmatch(pat.get('key', '.*'), key)
+                    and ('config' not in pat or re.fullmatch(pat['config'], config))):
+                break
+        else:
             continue
         if 'cases' in e:
             allowed = set(e['cases'])
